@@ -13,7 +13,7 @@ def _build(name):
         e.prop = 'C02'
         e.oracles = ('decoder',)
         e.weights = dict(append=20, iterappend=12, setitem=12, truncate=14, mode=3, reopen=6,
-                         append_bad=3, truncate_bad=2, meta=8, recreate=8, iterappend_fail=6)
+                         append_bad=3, truncate_bad=2, meta=8, recreate=8, iterappend_fail=6, copycheck=3)
         return e
     from .engines import raggedhist as RH
     if name == 'C04':
@@ -24,17 +24,18 @@ def _build(name):
         e = RH.RaggedHistory()
         e.prop = 'C05'
         e.oracles = ('decoder',)
+        e.weights = dict(e.weights, recreate=4, copycheck=3)
         return e
     from .core import Union
     if name == 'C08':
         a = AH.ArrayHistory()
         a.oracles = ('readme',)
         a.weights = dict(append=18, iterappend=10, setitem=4, truncate=14, mode=3, reopen=8,
-                         append_bad=3, truncate_bad=2, meta=22, recreate=10, iterappend_fail=6)
+                         append_bad=3, truncate_bad=2, meta=22, recreate=10, iterappend_fail=6, copycheck=6)
         r = RH.RaggedHistory()
         r.oracles = ('readme',)
         r.weights = dict(append=26, iterappend=12, truncate=16, mode=3, reopen=10, append_bad=3,
-                         truncate_bad=2, getbad=0, iter=0, meta=8, iterappend_fail=7)
+                         truncate_bad=2, getbad=0, iter=0, meta=8, iterappend_fail=7, copycheck=5, recreate=5)
         r.many_p = 0.45
         return Union('C08', [(1, a), (1, r)], quick_runs=2500, thorough_runs=60000, batch=25)
     if name == 'C13':
